@@ -1044,9 +1044,17 @@ func massRepetition(c *wgCtx, n int) (msg string) {
 			msg = fmt.Sprintf("build panicked during a long run of identical builds: %v", r)
 		}
 	}()
-	want := c.canon.verdict()
+	// a tiny model when the one under test is not (70 000 builds of it must
+	// stay a matter of a second or two)
+	pm, want := c.pm, c.canon.verdict()
+	if c.canonSteps > 400 {
+		pm = (&Model{Schema: "1.1", Types: []*Type{{Name: "user"}, {Name: "doc", Relations: []*Relation{
+			{Name: "viewer", Expr: &Expr{Kind: KThis}, Direct: []Ref{{Type: "user"}}},
+			{Name: "editor", Expr: &Expr{Kind: KUnion, Children: []*Expr{{Kind: KThis}, {Kind: KComputed, Rel: "viewer"}}}, Direct: []Ref{{Type: "user"}}}}}}}).toProto()
+		want = "accepted"
+	}
 	for i := 0; i < n; i++ {
-		_, err := graph.NewWeightedAuthorizationModelGraphBuilder().Build(c.pm)
+		_, err := graph.NewWeightedAuthorizationModelGraphBuilder().Build(pm)
 		got := "accepted"
 		if err != nil {
 			got = "rejected"
